@@ -1024,7 +1024,15 @@ class ExcelCompiler:
             for range_todo in reversed(self.range_todos):
                 self._evaluate_range(range_todo)
             for cell_todo in cell_todos:
-                self._evaluate(cell_todo)
+                try:
+                    self._evaluate(cell_todo)
+                except Exception:
+                    # the stored results calculated from a cell which can
+                    # not be calculated are not results of this model
+                    failed = self.cell_map[cell_todo]
+                    for dependant in self.dep_graph.successors(failed):
+                        self._reset(dependant)
+                    raise
         finally:
             # also when connecting the graph failed: a range that can not be
             # evaluated would fail every later graph construction
